@@ -17,7 +17,12 @@ import (
 
 // ---------------------------------------------------------------- C12: name conflicts
 
-var validNames = []string{"a", "a/b", "a/b/c", "a/c", "ab", "b"}
+// "a-" sorts between "a" and its children "a/…" ('-' < '/'): a neighbour-only comparison of sorted additions
+// misses the conflict between a and a/b when a- lies between them
+var validNames = []string{"a", "a-", "a/b", "a/b/c", "a/c", "ab", "b"}
+
+// sub-alphabet of the three-record transactions of the quick tier
+var coreNames = []string{"a", "a-", "a/b", "a/c", "b"}
 var invalidNames = []string{"a/", "a//b", "./a", "a/..", ".."}
 
 type rec12 struct {
@@ -60,8 +65,11 @@ func allTxns(threeRecords bool) [][]rec12 {
 			}
 		}
 	}
-	if threeRecords {
-		v := validNames
+	{
+		v := coreNames
+		if threeRecords {
+			v = validNames
+		}
 		for i := 0; i < len(v); i++ {
 			for j := i + 1; j < len(v); j++ {
 				for k := j + 1; k < len(v); k++ {
@@ -350,6 +358,12 @@ func runC12(tier string, wi, wn int, res *result) {
 				steps = append(steps, step12{Form: "split", Recs: t}, step12{Form: "split", Recs: []rec12{t[1], t[0]}})
 				steps = append(steps, step12{Form: "splitc", Recs: t}, step12{Form: "splitc", Recs: []rec12{t[1], t[0]}})
 			}
+			if len(t) == 3 {
+				// three one-record tables in one Addition, going on after a refused table: a table refused in the
+				// middle must not spoil the tables before or after it (every rotation puts each record in each place)
+				steps = append(steps, step12{Form: "splitc", Recs: t}, step12{Form: "splitc", Recs: []rec12{t[1], t[2], t[0]}}, step12{Form: "splitc", Recs: []rec12{t[2], t[0], t[1]}},
+					step12{Form: "splitc", Recs: []rec12{t[2], t[1], t[0]}})
+			}
 		}
 		for _, st := range steps {
 			// successor by the model (the real code is compared against it)
@@ -367,7 +381,9 @@ func runC12(tier string, wi, wn int, res *result) {
 				_, next = modelApply(n.s, st.Recs)
 			}
 			hst := append(append([]step12{}, n.hist...), st)
-			if k := next.key(); !seen[k] {
+			// quick tier: states with more than one tombstone are reached (the transition into them is executed
+			// and checked) but not expanded further
+			if k := next.key(); !seen[k] && (tier == "thorough" || len(next.tombs) <= 1) {
 				seen[k] = true
 				queue = append(queue, node{next, hst})
 			}
